@@ -69,7 +69,7 @@ def c19_plan(run, replay=None):
     else:
         run.tlc("DirSourceMC", "C19_quick.cfg" if q else "C19_thorough.cfg", "design", workers=8,
                 cases_out="cases.ndjson", timeout=1500)
-    s = run.harness("dirsrc", ["-in", "cases.ndjson", "-out", "trace.ndjson"], timeout=3000)
+    s = run.harness("dirsrc", ["-in", "cases.ndjson", "-out", "trace.ndjson"] + ([] if replay else ["-longrun", 150 if q else 700]), timeout=3000)
     run.load_inputs("trace.ndjson.inputs")
     run.validate_trace("DirSourceTrace", "trace.ndjson", s["cases"], timeout=3000)
     only(run, ["C19."])
@@ -237,7 +237,7 @@ def c13_plan(run, replay=None):
     if replay:
         replay_cases(run, replay, "cases.ndjson")
     else:
-        for sl in ["ids", "header", "stu", "events", "shift", "long", "vids", "vpos", "vrest", "vtrip"] + ([] if q else ["stu2", "hdr2"]):
+        for sl in ["ids", "header", "stu", "events", "shift", "long", "durations", "vids", "vpos", "vrest", "vtrip"] + ([] if q else ["stu2", "hdr2"]):
             run.tlc("TripHashMC", "C13_%s.cfg" % sl, "design", workers=4, cases_out="cases.ndjson", timeout=1500)
     s = run.harness("hash", ["-in", "cases.ndjson", "-out", "obs.ndjson"], timeout=3000)
     run.load_inputs("obs.ndjson.inputs")
@@ -310,15 +310,20 @@ def c18_plan(run, replay=None):
     run.load_inputs("race_obs.ndjson.inputs")
     if s2.get("_failed"):
         # the Go runtime itself aborts the process on an unsynchronised concurrent map access
+        # (fatal error: concurrent map ...), or a panic inside the library kills the process (e.g. in a goroutine the
+        # library started itself); both are behaviour of the real code under concurrent use.  Anything else is ours.
         err = s2["_stderr"]
-        if "fatal error: concurrent map" not in err:
+        m = re.search(r"^(panic: |fatal error: ).*$", err, re.M)
+        in_library = bool(m) and "github.com/jamespfennell/gtfs" in err[m.start():m.start() + 6000]
+        if not in_library:
             raise vcore.Infra("race-mode harness failed:\n" + err[-3000:])
         tops = re.findall(r"TOPOLOGY (\S+)", err)
         case = tops[-1] if tops else "race-?"
-        fatal = [l.strip() for l in err.splitlines() if "fatal error" in l or "nyctalerts" in l or "gtfs." in l][:12]
+        tail = err[m.start():].splitlines()
+        fatal = [l.strip() for l in tail if "fatal error" in l or "panic:" in l or "jamespfennell/gtfs" in l][:12]
         with open(os.path.join(run.work, "race_obs.ndjson"), "w") as f:
             f.write(json.dumps({"g": "report", "case": case, "report": " | ".join(fatal)}) + "\n")
-        run.notes.append("the race-mode run was aborted by the Go runtime (concurrent map access); remaining topologies were not run")
+        run.notes.append("the race-mode run was aborted (runtime fatal error or panic inside the library); remaining topologies were not run")
     # what the race detector printed, attributed to the topology that was running
     reports, cur = {}, None
     for line in s2["_stderr"].splitlines():
@@ -429,7 +434,7 @@ def c05_plan(run, replay=None):
          "resource use proportional to input size is out of scope (as in the property)"], exhaustive=False)
 
 
-ZONES = "nil,UTC,America/New_York,Asia/Kolkata,fixed+0545,Pacific/Auckland,fixed-0330,sameName+9,sameName-5"
+ZONES = "nil,UTC,America/New_York,Asia/Kolkata,fixed+0545,Pacific/Auckland,fixed-0330,sameName+9,sameName-5,America/Santiago"
 
 PLANS = {
     "C05": c05_plan,
@@ -450,7 +455,7 @@ PLANS = {
                          {"distinct_messages": 1500, "conflict_free_messages": 1500}),
     "C04": realtime_plan("C04", [("RT_merge_quick.cfg", "RT_merge_thorough.cfg", "nil", 4)], {"messages_with_2plus_entities": 400, "conflict_free_messages": 300}),
     "C07": realtime_plan("C07", [("RT_merge_quick.cfg", "RT_merge_thorough.cfg", "nil", 4)], {"messages_with_2plus_entities": 400, "conflict_free_messages": 300}),
-    "C12": realtime_plan("C12", [("RT_alerts_quick.cfg", "RT_alerts_thorough.cfg", "nil", 1), ("RT_alerts2.cfg", "RT_alerts2.cfg", "nil", 2),
+    "C12": realtime_plan("C12", [("RT_alerts_quick.cfg", "RT_alerts_thorough.cfg", "nil,America/Santiago", 1), ("RT_alerts2.cfg", "RT_alerts2.cfg", "nil", 2),
                                  ("RT_merge_quick.cfg", "RT_merge_quick.cfg", "nil", 1)], {"distinct_messages": 400}),
     "C20": c20_plan,
     "C19": c19_plan,
